@@ -13,6 +13,7 @@ mod maps;
 mod c01;
 mod c04;
 mod c19;
+mod c20;
 
 pub use util::*;
 
@@ -34,6 +35,7 @@ fn props() -> Vec<Prop> {
         Prop { id: "C04", run: c04::run, gen: c04::gen },
         Prop { id: "C07", run: c04::run_c07, gen: c04::gen_c07 },
         Prop { id: "C19", run: c19::run, gen: c19::gen },
+        Prop { id: "C20", run: c20::run, gen: c20::gen },
     ]
 }
 
